@@ -19,6 +19,7 @@ use simcore::evidence::{read_json, write_json};
 use simcore::pool::{arg_val, run_chunks};
 use simcore::{hash_bytes, hash_combine, Rng};
 use std::collections::{BTreeMap, BTreeSet};
+use std::marker::PhantomData;
 use std::path::{Path, PathBuf};
 use std::rc::Rc;
 use std::str::FromStr;
@@ -152,8 +153,37 @@ struct Case {
     companion: Option<(u64, u64, u64)>,
 }
 
+type CompParser = CsvLineParser<std::io::Cursor<Vec<u8>>, PrecisDerivedProperty>;
+
+/// Is the parser type of the tree under test `Send`? Nothing in C17 promises it; if a change makes
+/// it `!Send` (an `Rc` inside, say) the helper-thread variant of the companion is simply not used.
+/// (Inherent method when the bound holds, trait default otherwise.)
+struct SendProbe<T>(PhantomData<T>);
+trait SendFallback {
+    fn is_send(&self) -> bool {
+        false
+    }
+}
+impl<T> SendFallback for SendProbe<T> {}
+impl<T: Send> SendProbe<T> {
+    fn is_send(&self) -> bool {
+        true
+    }
+}
+fn comp_parser_is_send() -> bool {
+    SendProbe::<CompParser>(PhantomData).is_send()
+}
+/// Carries the `&mut` parser into the helper thread; only ever used when `comp_parser_is_send()`.
+struct Carrier<'a>(&'a mut CompParser);
+unsafe impl<'a> Send for Carrier<'a> {}
+impl<'a> Carrier<'a> {
+    fn into_inner(self) -> &'a mut CompParser {
+        self.0
+    }
+}
+
 struct Companion {
-    parser: Option<CsvLineParser<std::io::Cursor<Vec<u8>>, PrecisDerivedProperty>>,
+    parser: Option<CompParser>,
     exp: Vec<Entry>,
     k: usize,
     rng: Rng,
@@ -329,15 +359,19 @@ fn run_case(case: &Case, scratch: Option<&Path>) -> Outcome {
                     c.parser = Some(CsvLineParser::from_reader(std::io::Cursor::new(c.bytes.clone())));
                 }
                 let p = c.parser.as_mut().unwrap();
-                let got = if c.on_thread && c.thread_budget > 0 {
+                let got = if c.on_thread && c.thread_budget > 0 && comp_parser_is_send() {
                     // the same step on a helper OS thread that starts and exits around it: exactly one
                     // thread runs at any time, so the run stays a function of the seed
                     c.thread_budget -= 1;
                     comp_threads += 1;
+                    let carrier = Carrier(p);
                     std::thread::scope(|s| {
-                        s.spawn(|| match std::panic::catch_unwind(std::panic::AssertUnwindSafe(|| p.next())) {
-                            Ok(x) => classify(x),
-                            Err(_) => Got::Panic,
+                        s.spawn(move || {
+                            let p = carrier.into_inner();
+                            match std::panic::catch_unwind(std::panic::AssertUnwindSafe(|| p.next())) {
+                                Ok(x) => classify(x),
+                                Err(_) => Got::Panic,
+                            }
                         })
                         .join()
                         .unwrap_or(Got::Panic)
